@@ -92,7 +92,8 @@ type ShardOpts struct {
 	Mode    string // child mode name (registered in the binary)
 	Bin     string // binary to run ("" = self)
 	Workers int
-	CPUs    int    // taskset for each worker (0 = none)
+	CPUs    int    // taskset for each worker (0 = none); worker w is pinned to CPUs cores starting at w*CPUs
+	NCores  int    // number of cores available for pinning (default 16)
 	Env     []string
 	Timeout time.Duration // wall-clock watchdog per child (inconclusive when it fires without evidence)
 	// Died is called when a child died while running a case. It decides whether that is a
@@ -119,15 +120,27 @@ func (c *Ctx) RunSharded(cases []string, o ShardOpts) {
 		shards[i%o.Workers] = append(shards[i%o.Workers], id)
 	}
 	var wg sync.WaitGroup
-	for _, sh := range shards {
+	for w, sh := range shards {
 		wg.Add(1)
+		cpulist := ""
+		if o.CPUs > 0 {
+			nc := o.NCores
+			if nc == 0 {
+				nc = 16
+			}
+			var ids []string
+			for k := 0; k < o.CPUs; k++ {
+				ids = append(ids, fmt.Sprint((w*o.CPUs+k)%nc))
+			}
+			cpulist = strings.Join(ids, ",")
+		}
 		go func(todo []string) {
 			defer wg.Done()
 			for len(todo) > 0 {
 				r := c.RunChild(ChildOpts{
 					Bin: o.Bin, Name: o.Mode,
 					Args:  []string{"child", "cases", c.ID, c.Tier, fmt.Sprint(c.Seed), o.Mode},
-					Stdin: strings.Join(todo, "\n") + "\n", Env: o.Env, CPUs: o.CPUs, Timeout: o.Timeout,
+					Stdin: strings.Join(todo, "\n") + "\n", Env: o.Env, CPUList: cpulist, Timeout: o.Timeout,
 				})
 				done := 0
 				for _, e := range r.Journal {
